@@ -1,10 +1,15 @@
 import Aiorpcx.C03.Model
+import Aiorpcx.C03.Serve
+import Aiorpcx.C03.Timed
 import Aiorpcx.Facts.C03
 /-!
 # C03 — any handler outcome yields one well-formed reply; the session survives
 
-The decision logic is stated outright (`reply_table`), then lifted to any number of concurrent
-items in any completion order (`session_survives`).  `Variant.repaired` is the current tree.
+The decision logic is stated outright (`reply_table`), tied to the running code by the
+behavioural table (`facts_ladder_table`), lifted to any number of concurrent items in any
+completion order (`serve_spec`, `session_survives`, `disconnect_cuts_rest`), and to the K-slot
+schedule with the processing timeout (`schedule_complete`, `timed_session_survives`).
+`Variant.repaired` is the current tree.
 -/
 namespace Aiorpcx.C03
 
@@ -13,47 +18,126 @@ def factsCfg : Cfg :=
   { internalError := Facts.C03.internalError, serverBusy := Facts.C03.serverBusy,
     excessiveUsage := Facts.C03.excessiveUsage, baseCost := Facts.C03.baseCost }
 
-/-- tie to the source: the codes the property names, the order of the except clauses the model's
-`ladder` mirrors, the guard around `send_result` (F9 repair) and the code `encode_payload`
-attaches to an unencodable payload -/
-theorem facts_codes_and_ladder :
+def kindOf (request : Bool) : Kind := if request then .request else .notification
+
+/-- **Tie to the running code.**  The codes are the ones the property names, and on every row of
+the behavioural table - one real serving session per row, given one request or notification
+whose handler behaves as each outcome class (values, the three kinds of unencodable values, a
+returned RPCError object, RPCError, ProtocolError, five other exception classes, an overrun in
+the handler / while queued for a slot / in the throttle sleep, the three ReplyAndDisconnect
+payloads, a refusal by the limiter, and the behaviours outside the quantifier) - the decision
+model predicts exactly what was observed: the reply, the rise of the error count and of the
+cost, the close, the hook, and whether the session stopped serving. -/
+theorem facts_ladder_table :
     Facts.C03.internalError = -32603 ∧ Facts.C03.serverBusy = -102 ∧
     Facts.C03.excessiveUsage = -101 ∧
-    Facts.C03.ladder = [["ProtocolError", "RPCError"], ["TaskTimeout"], ["ReplyAndDisconnect"],
-                        ["ExcessiveSessionCostError"], ["Exception"]] ∧
-    Facts.C03.sendResultGuarded = true ∧ Facts.C03.rpcErrorIsException = true ∧
-    Facts.C03.encodeFailureCode = Facts.C03.internalError :=
-  ⟨by decide, by decide, by decide, by decide, by decide, by decide, by decide⟩
+    (∀ row ∈ Facts.C03.table,
+      obsOf (throttled .repaired factsCfg row.2.1 (kindOf row.1)) = row.2.2) ∧
+    40 ≤ Facts.C03.table.length :=
+  ⟨by decide, by decide, by decide, by decide, by decide⟩
 
-/-- **The reply table.**  For a request, whatever the handler did, exactly one reply is
-produced and it is: the value; the handler's own code and message (RPCError, ProtocolError);
--32603 for any other exception and for a value that cannot be encoded; -102 for an overrun of
-the processing timeout; the carried value/error for ReplyAndDisconnect; -101 for a refusal by
-the limiter.  Nothing escapes. -/
-theorem reply_table (cfg : Cfg) (o : Outcome) :
+/-- the requests of one schedule probe: request `i` runs for its duration and returns a value,
+or never ends by itself -/
+def probeItems : Nat → List (Nat × Bool × Nat) → List TItem
+  | _, [] => []
+  | i, (d, never, arr) :: rest =>
+    ⟨⟨i, .request, false, if never then .overruns else .returns (.value i)⟩, d, arr⟩ ::
+      probeItems (i + 1) rest
+
+/-- **Tie of the schedule to the running code.**  On every row of the observed schedule table -
+real sessions with 1, 2 and 3 slots, with and without a throttle sleep, given 3 to 5 requests at
+once or one after the other - `schedule` predicts the instant at which every request completed (its handler reached its
+outcome, or the processing timeout answered for it), in the observed order. -/
+theorem facts_schedule_table :
+    (∀ row ∈ Facts.C03.scheduleTable,
+      (schedule { slots := row.1, deadline := Facts.C03.probeDeadline, throttle := row.2.1 }
+          (probeItems 0 row.2.2.1)).map (fun ev => (ev.2.id, ev.1)) = row.2.2.2) ∧
+    20 ≤ Facts.C03.scheduleTable.length :=
+  ⟨by decide, by decide⟩
+
+/-! ## One item -/
+
+/-- the behaviours the property quantifies over, plus the limiter's refusal (not a handler
+behaviour, but one the ladder serves).  Outside: `raise ReplyAndDisconnect()` with no argument
+and the three BaseException behaviours. -/
+def inScope : Outcome → Bool
+  | .raisesTaskTimeout => false
+  | .raisesBase => false
+  | .replyAndDisconnectNoArg => false
+  | _ => true
+
+/-- the reply the property text prescribes -/
+def textReply (cfg : Cfg) : Outcome → Reply
+  | .returns (.value v) => .result v
+  | .returns (.unencodable _) => .error cfg.internalError msgEncoding
+  | .returns (.error c m _) => .error c m
+  | .raisesRpcError c m _ => .error c m
+  | .raisesProtocolError c m => .error c m
+  | .raisesOther => .error cfg.internalError msgInternal
+  | .raisesExcessive => .error cfg.internalError msgInternal      -- an Exception like any other
+  | .overruns => .error cfg.serverBusy msgBusy
+  | .replyAndDisconnect (.value v) => .result v
+  | .replyAndDisconnect (.unencodable _) => .error cfg.internalError msgEncoding
+  | .replyAndDisconnect (.error c m _) => .error c m
+  | .excessiveCost => .error cfg.excessiveUsage msgExcessive
+  | _ => .error cfg.internalError msgInternal
+
+/-- **The reply table.**  For a request, whatever the handler did (within the property's
+quantifier, the handler raising the limiter's own exception class apart), exactly one reply is
+produced and it is: the value; the handler's own code and message (RPCError, ProtocolError, a
+returned RPCError object); -32603 for any other exception and for a value that cannot be
+encoded; -102 for an overrun of the processing timeout; the carried value/error for
+ReplyAndDisconnect; -101 for a refusal by the limiter.  Nothing escapes. -/
+theorem reply_table (cfg : Cfg) (o : Outcome) (hs : inScope o = true) (hx : o ≠ .raisesExcessive) :
     (throttled .repaired cfg o .request).escapes = false ∧
-    (throttled .repaired cfg o .request).reply = some (match o with
-      | .returns (.value v) => .result v
-      | .returns (.unencodable _) => .error cfg.internalError msgEncoding
-      | .returns (.error c m _) => .error c m
-      | .raisesRpcError c m _ => .error c m
-      | .raisesProtocolError c m => .error c m
-      | .raisesOther => .error cfg.internalError msgInternal
-      | .overruns => .error cfg.serverBusy msgBusy
-      | .replyAndDisconnect (.value v) => .result v
-      | .replyAndDisconnect (.unencodable _) => .error cfg.internalError msgEncoding
-      | .replyAndDisconnect (.error c m _) => .error c m
-      | .excessiveCost => .error cfg.excessiveUsage msgExcessive) := by
+    (throttled .repaired cfg o .request).reply = some (textReply cfg o) := by
   cases o with
-  | returns p => cases p <;> simp [throttled, ladder, replyOf]
-  | replyAndDisconnect p => cases p <;> simp [throttled, ladder, replyOf]
-  | _ => simp [throttled, ladder, replyOf]
+  | returns p => cases p <;> simp [throttled, ladder, replyOf, textReply]
+  | replyAndDisconnect p => cases p <;> simp [throttled, ladder, replyOf, textReply]
+  | raisesExcessive => exact absurd rfl hx
+  | raisesTaskTimeout => simp [inScope] at hs
+  | raisesBase => simp [inScope] at hs
+  | replyAndDisconnectNoArg => simp [inScope] at hs
+  | _ => simp [throttled, ladder, replyOf, textReply]
 
-/-- a notification is never answered, whatever its handler did, and nothing escapes either -/
+example : inScope .raisesOther = true ∧ Outcome.raisesOther ≠ .raisesExcessive := by decide
+
+/-- the full-strength statement: every behaviour within the quantifier - `raise
+ExcessiveSessionCostError()` in a handler is "an arbitrary Exception" - gets the text's reply
+and does not close the connection unless it is a ReplyAndDisconnect / a limiter refusal -/
+def reply_table_full : Prop :=
+  ∀ (cfg : Cfg) (o : Outcome), inScope o = true →
+    (throttled .repaired cfg o .request).escapes = false ∧
+    (throttled .repaired cfg o .request).reply = some (textReply cfg o)
+
+/-- the code violates it: a handler that itself raises ExcessiveSessionCostError is answered
+-101 'excessive resource usage' (and the session is disconnected) by the clause meant for the
+limiter (known finding `c03:handler-raised-excessive-cost-error`) -/
+theorem reply_table_full_fails : ¬ reply_table_full := by
+  intro h
+  have := (h {} .raisesExcessive rfl).2
+  revert this
+  decide
+
+/-- what the code does with that behaviour -/
+theorem raises_excessive_as_limiter (cfg : Cfg) (k : Kind) :
+    throttled .repaired cfg .raisesExcessive k = throttled .repaired cfg .excessiveCost k := by
+  cases k <;> rfl
+
+/-- the behaviours outside the quantifier: a TaskTimeout raised by the handler is answered like
+an overrun; `ReplyAndDisconnect()` and any other BaseException leave `_throttled_request` -/
+theorem outside_quantifier (v : Variant) (cfg : Cfg) (k : Kind) :
+    throttled v cfg .raisesTaskTimeout k = throttled v cfg .overruns k ∧
+    (throttled v cfg .raisesBase k).escapes = true ∧
+    (throttled v cfg .replyAndDisconnectNoArg k).escapes = true := by
+  cases k <;> simp [throttled, ladder]
+
+/-- a notification is never answered, whatever its handler did, and within the quantifier
+nothing escapes either -/
 theorem notification_silent (v : Variant) (cfg : Cfg) (o : Outcome) :
     (throttled v cfg o .notification).reply = none ∧
-    (throttled v cfg o .notification).escapes = false := by
-  cases o <;> simp [throttled, ladder]
+    (inScope o = true → (throttled v cfg o .notification).escapes = false) := by
+  cases o <;> simp [throttled, ladder, inScope]
 
 /-- whether an item counts as failed: everything except a plain (or carried) encodable value -
 for a notification an unencodable return value goes unnoticed, since nothing is encoded -/
@@ -66,7 +150,7 @@ def failedItem (k : Kind) : Outcome → Bool
 
 /-- **Error accounting**: each failed request raises the error count by exactly one and the
 cost by the base error cost plus the error's own cost; a successful one by nothing. -/
-theorem errors_cost_accounting (cfg : Cfg) (o : Outcome) (k : Kind) :
+theorem errors_cost_accounting (cfg : Cfg) (o : Outcome) (k : Kind) (hs : inScope o = true) :
     (throttled .repaired cfg o k).errors = (if failedItem k o then 1 else 0) ∧
     (throttled .repaired cfg o k).cost =
       (if failedItem k o then cfg.baseCost + (match o with
@@ -78,89 +162,430 @@ theorem errors_cost_accounting (cfg : Cfg) (o : Outcome) (k : Kind) :
   | returns p => cases p <;> simp [throttled, ladder, failedItem, isException, errorCost, replyOf]
   | replyAndDisconnect p =>
     cases p <;> simp [throttled, ladder, failedItem, isException, errorCost, replyOf]
+  | raisesTaskTimeout => simp [inScope] at hs
+  | raisesBase => simp [inScope] at hs
+  | replyAndDisconnectNoArg => simp [inScope] at hs
   | _ => simp [throttled, ladder, failedItem, isException, errorCost, replyOf]
 
-/-- the connection is closed exactly for ReplyAndDisconnect and for a refusal by the limiter,
-and the disconnect hook runs exactly for the latter -/
+example : inScope (.raisesRpcError 5 1 10) = true := rfl
+
+/-- the connection is closed exactly for ReplyAndDisconnect and for the limiter's exception
+class, and the disconnect hook runs exactly for the latter -/
 theorem close_and_hook (cfg : Cfg) (o : Outcome) (k : Kind) :
     (throttled .repaired cfg o k).close =
-      (match o with | .replyAndDisconnect _ => true | .excessiveCost => true | _ => false) ∧
-    (throttled .repaired cfg o k).hook = (match o with | .excessiveCost => true | _ => false) := by
+      (match o with | .replyAndDisconnect _ => true | .excessiveCost => true
+                    | .raisesExcessive => true | _ => false) ∧
+    (throttled .repaired cfg o k).hook =
+      (match o with | .excessiveCost => true | .raisesExcessive => true | _ => false) := by
   cases k <;> cases o with
   | returns p => cases p <;> simp [throttled, ladder]
   | replyAndDisconnect p => cases p <;> simp [throttled, ladder]
   | _ => simp [throttled, ladder]
 
-theorem never_escapes (cfg : Cfg) (o : Outcome) (k : Kind) :
+/-- within the quantifier no exception leaves `_throttled_request` -/
+theorem never_escapes (cfg : Cfg) (o : Outcome) (k : Kind) (hs : inScope o = true) :
     (throttled .repaired cfg o k).escapes = false := by
-  cases k
-  · exact (reply_table cfg o).1
-  · exact (notification_silent .repaired cfg o).2
+  cases k <;> cases o with
+  | returns p => cases p <;> simp [throttled, ladder]
+  | replyAndDisconnect p => cases p <;> simp [throttled, ladder]
+  | raisesTaskTimeout => simp [inScope] at hs
+  | raisesBase => simp [inScope] at hs
+  | replyAndDisconnectNoArg => simp [inScope] at hs
+  | _ => simp [throttled, ladder]
+
+example : inScope .overruns = true := rfl
+
+/-- a request always gets a reply unless an exception leaves the function -/
+theorem request_replied (cfg : Cfg) (o : Outcome)
+    (h : (throttled .repaired cfg o .request).escapes = false) :
+    (throttled .repaired cfg o .request).reply.isSome = true := by
+  cases o with
+  | returns p => cases p <;> simp [throttled, ladder, replyOf]
+  | replyAndDisconnect p => cases p <;> simp [throttled, ladder, replyOf]
+  | raisesBase => simp [throttled, ladder] at h
+  | replyAndDisconnectNoArg => simp [throttled, ladder] at h
+  | _ => simp [throttled, ladder, replyOf]
 
 /-! ## Any number of items, any completion order -/
 
-def expectedReply (cfg : Cfg) (it : Item) : Option (Nat × Reply) :=
-  (throttled .repaired cfg it.outcome it.kind).reply.map fun r => (it.id, r)
+/-- **What `serve` computes.**  For every list of completions (any items, any outcomes, any
+order): exactly the completions in `live` (up to and including the first reply-and-disconnect,
+stopping before an escaping exception) are answered and counted, the rest is cut off. -/
+theorem serve_spec (cfg : Cfg) (items : List Item) :
+    serve .repaired cfg items =
+      { alive := !dies cfg items,
+        closed := (live cfg items).any (closes cfg),
+        replies := ((live cfg items).filter fun it => !it.batch).flatMap (expectedReply cfg),
+        batchParts := ((live cfg items).filter fun it => it.batch).flatMap (expectedReply cfg),
+        errors := ((live cfg items).map fun it => (stepOf cfg it).errors).sum,
+        cost := ((live cfg items).map fun it => (stepOf cfg it).cost).sum,
+        hooks := ((live cfg items).filter fun it => (stepOf cfg it).hook).length,
+        lost := (cutOff cfg items).map (·.id) } := by
+  have := foldl_spec cfg items {} rfl rfl
+  simpa [serve] using this
 
-theorem serve_invariant (cfg : Cfg) (items : List Item) : ∀ (s : Served), s.alive = true →
-    (items.foldl (serveOne .repaired cfg) s).alive = true ∧
-    (items.foldl (serveOne .repaired cfg) s).lost = s.lost ∧
-    (items.foldl (serveOne .repaired cfg) s).replies =
-      s.replies ++ items.filterMap (expectedReply cfg) ∧
-    (items.foldl (serveOne .repaired cfg) s).errors =
-      s.errors + (items.map fun it => (throttled .repaired cfg it.outcome it.kind).errors).sum := by
-  induction items with
-  | nil => intro s hs; simp [hs]
-  | cons it its ih =>
-    intro s hs
-    have hne := never_escapes cfg it.outcome it.kind
-    have hstep : (serveOne .repaired cfg s it).alive = true := by
-      simp [serveOne, hs, hne]
-    obtain ⟨h1, h2, h3, h4⟩ := ih (serveOne .repaired cfg s it) hstep
-    simp only [List.foldl_cons]
-    refine ⟨h1, ?_, ?_, ?_⟩
-    · rw [h2]; simp [serveOne, hs, hne]
-    · rw [h3]
-      simp only [List.filterMap_cons, expectedReply]
-      cases hr : (throttled .repaired cfg it.outcome it.kind).reply <;>
-        simp [serveOne, hs, hne, hr]
-    · rw [h4]; simp [serveOne, hs, hne]; omega
+/-- an item the property speaks about that does not disconnect -/
+def clean (cfg : Cfg) (it : Item) : Prop := inScope it.outcome = true ∧ closes cfg it = false
 
-/-- **The session survives, and every request is answered exactly once.**  For every finite set
-of in-flight requests, notifications and batch members with any assignment of handler outcomes,
-completing in *any* order: message processing is still alive afterwards, no item is lost, the
-replies written are exactly one per request - the one `reply_table` prescribes, in completion
-order - and none for a notification; the error count is the number of failed items. -/
-theorem session_survives (cfg : Cfg) (items : List Item) :
-    (serve .repaired cfg items).alive = true ∧ (serve .repaired cfg items).lost = [] ∧
-    (serve .repaired cfg items).replies = items.filterMap (expectedReply cfg) ∧
-    (serve .repaired cfg items).errors = (items.filter fun it => failedItem it.kind it.outcome).length := by
-  obtain ⟨h1, h2, h3, h4⟩ := serve_invariant cfg items {} rfl
-  refine ⟨h1, h2, by simpa [serve] using h3, ?_⟩
-  unfold serve
-  rw [h4]
-  simp only [Nat.zero_add]
-  induction items with
+instance (cfg : Cfg) (it : Item) : Decidable (clean cfg it) :=
+  inferInstanceAs (Decidable (_ ∧ _))
+
+theorem clean_not_escapes {cfg : Cfg} {it : Item} (h : inScope it.outcome = true) :
+    escapes cfg it = false := never_escapes cfg it.outcome it.kind h
+
+theorem clean_ne_excessive {cfg : Cfg} {it : Item} (h : clean cfg it) :
+    it.outcome ≠ .raisesExcessive := by
+  intro he
+  have := h.2
+  rw [closes, stepOf, (close_and_hook cfg it.outcome it.kind).1, he] at this
+  exact absurd this (by decide)
+
+/-- the reply of an item within the quantifier: one for a request - the table's - none for a
+notification -/
+theorem expectedReply_eq (cfg : Cfg) (it : Item) (hs : inScope it.outcome = true)
+    (hx : it.outcome ≠ .raisesExcessive) :
+    expectedReply cfg it =
+      (match it.kind with
+       | .request => [(it.id, textReply cfg it.outcome)]
+       | .notification => []) := by
+  unfold expectedReply replyList stepOf
+  cases hk : it.kind with
+  | request => simp [(reply_table cfg it.outcome hs hx).2]
+  | notification => simp [(notification_silent .repaired cfg it.outcome).1]
+
+theorem flatMap_expected (cfg : Cfg) (l : List Item)
+    (h : ∀ it ∈ l, inScope it.outcome = true ∧ it.outcome ≠ .raisesExcessive) :
+    l.flatMap (expectedReply cfg) =
+      (l.filter fun it => it.kind == .request).map fun it => (it.id, textReply cfg it.outcome) := by
+  induction l with
   | nil => rfl
-  | cons it its ih =>
+  | cons it rest ih =>
+    have h0 := h it (by simp)
+    have := ih fun x hx => h x (by simp [hx])
+    rw [List.flatMap_cons, expectedReply_eq cfg it h0.1 h0.2, this]
+    cases hk : it.kind <;> simp [hk]
+
+/-- the error count over items that do not escape: the failed ones -/
+theorem errors_sum (cfg : Cfg) (l : List Item) (h : ∀ it ∈ l, inScope it.outcome = true) :
+    (l.map fun it => (stepOf cfg it).errors).sum =
+      (l.filter fun it => failedItem it.kind it.outcome).length := by
+  induction l with
+  | nil => rfl
+  | cons it rest ih =>
+    have := ih fun x hx => h x (by simp [hx])
     simp only [List.map_cons, List.sum_cons, List.filter_cons]
-    rw [(errors_cost_accounting cfg it.outcome it.kind).1]
-    have : (its.map fun it => (throttled .repaired cfg it.outcome it.kind).errors).sum =
-        (its.filter fun it => failedItem it.kind it.outcome).length := by
-      apply ih
-      · exact (serve_invariant cfg its {} rfl).1
-      · exact (serve_invariant cfg its {} rfl).2.1
-      · exact (serve_invariant cfg its {} rfl).2.2.1
-      · exact (serve_invariant cfg its {} rfl).2.2.2
     rw [this]
+    simp only [stepOf, (errors_cost_accounting cfg it.outcome it.kind (h it (by simp))).1]
     split <;> simp <;> omega
 
+/-- **The session survives, and every request is answered exactly once.**  For every finite
+set of in-flight requests, notifications and batch members with any assignment of handler
+behaviours from the property's list, completing in *any* order, none of them a
+reply-and-disconnect: message processing is still alive afterwards, the connection open, no
+item is lost; the responses written to single requests are exactly one per request - the one
+`reply_table` prescribes, in completion order - and none for a notification; the parts of the
+batch response are exactly one per request member; the error count is the number of failed
+items. -/
+theorem session_survives (cfg : Cfg) (items : List Item) (h : ∀ it ∈ items, clean cfg it) :
+    (serve .repaired cfg items).alive = true ∧ (serve .repaired cfg items).closed = false ∧
+    (serve .repaired cfg items).lost = [] ∧
+    (serve .repaired cfg items).replies =
+      (items.filter fun it => !it.batch && it.kind == .request).map
+        (fun it => (it.id, textReply cfg it.outcome)) ∧
+    (serve .repaired cfg items).batchParts =
+      (items.filter fun it => it.batch && it.kind == .request).map
+        (fun it => (it.id, textReply cfg it.outcome)) ∧
+    (serve .repaired cfg items).errors =
+      (items.filter fun it => failedItem it.kind it.outcome).length := by
+  obtain ⟨hl, hc, hd⟩ := live_all cfg items fun it hit => ⟨(h it hit).2, clean_not_escapes (h it hit).1⟩
+  have hclosed : items.any (closes cfg) = false := by
+    simp only [List.any_eq_false]
+    intro it hit; simpa using (h it hit).2
+  have hscope : ∀ (p : Item → Bool), ∀ it ∈ items.filter p,
+      inScope it.outcome = true ∧ it.outcome ≠ .raisesExcessive := by
+    intro p it hit
+    have := h it (List.mem_filter.mp hit).1
+    exact ⟨this.1, clean_ne_excessive this⟩
+  rw [serve_spec, hl, hc, hd]
+  refine ⟨rfl, hclosed, rfl, ?_, ?_, ?_⟩
+  · simp only []
+    rw [flatMap_expected cfg _ (hscope _), List.filter_filter]
+    congr 1
+    apply List.filter_congr
+    intro x _; simp [Bool.and_comm]
+  · simp only []
+    rw [flatMap_expected cfg _ (hscope _), List.filter_filter]
+    congr 1
+    apply List.filter_congr
+    intro x _; simp [Bool.and_comm]
+  · exact errors_sum cfg items fun it hit => (h it hit).1
+
+/-- non-vacuity: three concurrent requests (a value, an RPCError, an exception) and a failing
+notification, completing out of arrival order -/
+example :
+    let items : List Item := [⟨2, .request, false, .raisesOther⟩, ⟨0, .request, false, .returns (.value 7)⟩,
+      ⟨3, .notification, false, .raisesRpcError 5 1 0⟩, ⟨1, .request, false, .raisesRpcError 9 2 40⟩]
+    (∀ it ∈ items, clean {} it) ∧
+    (serve .repaired {} items).replies =
+      [(2, .error (-32603) msgInternal), (0, .result 7), (1, .error 9 2)] ∧
+    (serve .repaired {} items).errors = 3 := by decide
+
+/-- **The batch response**: with the same hypotheses, a batch that has request members is
+answered by exactly one response, made of one part per request member. -/
+theorem batch_answered_once (cfg : Cfg) (items : List Item) (h : ∀ it ∈ items, clean cfg it)
+    (hb : 0 < batchCount items) :
+    batchResponse items (serve .repaired cfg items) =
+      some ((items.filter fun it => it.batch && it.kind == .request).map
+        (fun it => (it.id, textReply cfg it.outcome))) := by
+  have := (session_survives cfg items h).2.2.2.2.1
+  unfold batchResponse
+  rw [this]
+  simp only [batchCount] at hb ⊢
+  simp [hb]
+
+/-- **A reply-and-disconnect cuts the rest.**  If the items completing before `d` neither
+disconnect nor escape and `d` closes the connection (ReplyAndDisconnect, a refusal by the
+limiter), then serving `pre ++ d :: rest` is serving `pre ++ [d]` - `d` itself is still answered
+and counted - and every item of `rest` is lost: never answered, never counted. -/
+theorem disconnect_cuts_rest (cfg : Cfg) (pre : List Item) (d : Item) (rest : List Item)
+    (hpre : ∀ it ∈ pre, clean cfg it) (hd : closes cfg d = true) (hds : inScope d.outcome = true) :
+    serve .repaired cfg (pre ++ d :: rest) =
+      { serve .repaired cfg (pre ++ [d]) with lost := rest.map (·.id) } ∧
+    (serve .repaired cfg (pre ++ [d])).closed = true ∧
+    (serve .repaired cfg (pre ++ [d])).alive = true ∧
+    (serve .repaired cfg (pre ++ [d])).replies =
+      ((pre ++ [d]).filter fun it => !it.batch).flatMap (expectedReply cfg) ∧
+    (serve .repaired cfg (pre ++ [d])).errors =
+      ((pre ++ [d]).filter fun it => failedItem it.kind it.outcome).length := by
+  have hp : ∀ it ∈ pre, closes cfg it = false ∧ escapes cfg it = false :=
+    fun it hit => ⟨(hpre it hit).2, clean_not_escapes (hpre it hit).1⟩
+  have hde := clean_not_escapes (cfg := cfg) hds
+  obtain ⟨l1, c1, d1⟩ := live_through_close cfg pre d rest hp hd hde
+  obtain ⟨l2, c2, d2⟩ := live_through_close cfg pre d [] hp hd hde
+  have hsc : ∀ it ∈ pre ++ [d], inScope it.outcome = true := by
+    intro it hit
+    rcases List.mem_append.mp hit with h | h
+    · exact (hpre it h).1
+    · simp at h; subst h; exact hds
+  refine ⟨?_, ?_, ?_, ?_, ?_⟩
+  · rw [serve_spec, serve_spec, l1, c1, d1, l2, c2, d2]
+  · rw [serve_spec, l2]; simp [hd]
+  · rw [serve_spec, d2]; rfl
+  · rw [serve_spec, l2]
+  · rw [serve_spec, l2]; exact errors_sum cfg _ hsc
+
+/-- non-vacuity, and the audit's counter-example: R0 replies and disconnects, R1 completes
+afterwards and is never answered -/
+example :
+    serve .repaired {} [⟨0, .request, false, .replyAndDisconnect (.value 5)⟩,
+                        ⟨1, .request, false, .returns (.value 6)⟩] =
+      { closed := true, replies := [(0, .result 5)], lost := [1] } := by decide
+
+/-- **Answered unless cut** (`session_survives` with its side condition): a request is answered
+with the table's reply whenever no item that completed strictly before it disconnected -
+whatever completes after it, including disconnects and behaviours outside the quantifier. -/
+theorem answered_unless_cut (cfg : Cfg) (pre : List Item) (it : Item) (post : List Item)
+    (hpre : ∀ x ∈ pre, clean cfg x) (hs : inScope it.outcome = true)
+    (hx : it.outcome ≠ .raisesExcessive) (hreq : it.kind = .request) (hb : it.batch = false) :
+    (it.id, textReply cfg it.outcome) ∈ (serve .repaired cfg (pre ++ it :: post)).replies := by
+  have hp : ∀ x ∈ pre, closes cfg x = false ∧ escapes cfg x = false :=
+    fun x hx => ⟨(hpre x hx).2, clean_not_escapes (hpre x hx).1⟩
+  have hlive : it ∈ live cfg (pre ++ it :: post) := by
+    rw [live_prefix cfg pre _ hp]
+    apply List.mem_append_right
+    have he := clean_not_escapes (cfg := cfg) hs
+    by_cases hc : closes cfg it = true <;> simp [live, he, hc]
+  rw [serve_spec]
+  simp only [List.mem_flatMap]
+  refine ⟨it, List.mem_filter.mpr ⟨hlive, by simp [hb]⟩, ?_⟩
+  rw [expectedReply_eq cfg it hs hx, hreq]
+  simp
+
+example : inScope (Outcome.returns (.value 1)) = true ∧
+    Outcome.returns (.value 1) ≠ .raisesExcessive := by decide
+
 /-- completion order does not matter for *which* replies are sent: any permutation of the
-completion order yields a permutation of the same replies -/
-theorem replies_order_independent (cfg : Cfg) (a b : List Item) (h : a.Perm b) :
+completion order (no disconnecting item among them) yields a permutation of the same replies -/
+theorem replies_order_independent (cfg : Cfg) (a b : List Item) (h : a.Perm b)
+    (ha : ∀ it ∈ a, clean cfg it) :
     (serve .repaired cfg a).replies.Perm (serve .repaired cfg b).replies := by
-  rw [(session_survives cfg a).2.2.1, (session_survives cfg b).2.2.1]
-  exact h.filterMap _
+  have hb : ∀ it ∈ b, clean cfg it := fun it hit => ha it (h.mem_iff.mpr hit)
+  rw [(session_survives cfg a ha).2.2.2.1, (session_survives cfg b hb).2.2.2.1]
+  exact (h.filter _).map _
+
+/-! ## The schedule: K slots, throttle sleep, processing timeout -/
+
+/-- **The schedule is complete and respects the deadline**: the completion order is a
+rearrangement, ascending in time, of one completion per arrival; every completion is the
+handler's own outcome strictly before the processing timeout (counted from the arrival), or an
+overrun exactly at it -
+whether the time went on the handler, on the throttle sleep or on waiting for a slot. -/
+theorem schedule_complete (tm : Timing) (tis : List TItem) :
+    (schedule tm tis).Perm (completions tm (List.replicate tm.slots 0) tis) ∧
+    (schedule tm tis).Pairwise (fun a b => a.1 ≤ b.1) ∧
+    (completions tm (List.replicate tm.slots 0) tis).length = tis.length ∧
+    (∀ p ∈ (completions tm (List.replicate tm.slots 0) tis).zip tis, Completes tm p.1 p.2) ∧
+    (∀ ev ∈ schedule tm tis, ∃ ti ∈ tis, Completes tm ev ti) := by
+  refine ⟨sortEv_perm _, sortEv_sorted _, completions_length _ _ _, completions_pointwise _ _ _, ?_⟩
+  intro ev hev
+  exact completions_of_mem tm tis _ ev ((sortEv_perm _).mem_iff.mp hev)
+
+theorem clean_overrun {cfg : Cfg} (it : Item) : clean cfg (overrun it) := by
+  constructor
+  · rfl
+  · cases hk : it.kind <;> simp [closes, stepOf, overrun, throttled, ladder, hk]
+
+/-- the requests that are not batch members, counted through any rearrangement that keeps
+shapes -/
+theorem count_singles (l : List Item) :
+    (l.filter fun it => !it.batch && it.kind == .request).length =
+      ((l.map shape).filter fun s => !s.2.2 && s.2.1 == .request).length := by
+  induction l with
+  | nil => rfl
+  | cons it rest ih => simp only [List.map_cons, List.filter_cons, shape] at ih ⊢; split <;> simp [ih]
+
+theorem count_singles_t (tis : List TItem) :
+    (tis.filter fun ti => !ti.item.batch && ti.item.kind == .request).length =
+      ((tis.map fun ti => shape ti.item).filter fun s => !s.2.2 && s.2.1 == .request).length := by
+  induction tis with
+  | nil => rfl
+  | cons ti rest ih => simp only [List.map_cons, List.filter_cons, shape] at ih ⊢; split <;> simp [ih]
+
+/-- **Timed lifting.**  Requests arrive at any instants; `slots` handlers run at once, each after
+the throttle sleep; none of the behaviours is a reply-and-disconnect.  Then whatever the
+durations: message processing survives, nothing is lost, the single requests get exactly one
+response each, and each request is answered with the table's reply if its handler finished
+before the processing timeout and with 'server busy' if it did not. -/
+theorem timed_session_survives (cfg : Cfg) (tm : Timing) (tis : List TItem)
+    (h : ∀ ti ∈ tis, clean cfg ti.item) :
+    (runTimed .repaired cfg tm tis).alive = true ∧ (runTimed .repaired cfg tm tis).closed = false ∧
+    (runTimed .repaired cfg tm tis).lost = [] ∧
+    (runTimed .repaired cfg tm tis).replies.length =
+      (tis.filter fun ti => !ti.item.batch && ti.item.kind == .request).length ∧
+    (∀ ti ∈ tis, ti.item.kind = .request → ti.item.batch = false →
+      ((∃ t, t < ti.arr + tm.deadline ∧ (t, ti.item) ∈ schedule tm tis) ∧
+        (ti.item.id, textReply cfg ti.item.outcome) ∈ (runTimed .repaired cfg tm tis).replies) ∨
+      ((ti.arr + tm.deadline, overrun ti.item) ∈ schedule tm tis ∧
+        (ti.item.id, Reply.error cfg.serverBusy msgBusy) ∈ (runTimed .repaired cfg tm tis).replies)) := by
+  have hperm := sortEv_perm (completions tm (List.replicate tm.slots 0) tis)
+  -- every completion is clean
+  have hclean : ∀ it ∈ (schedule tm tis).map (·.2), clean cfg it := by
+    intro it hit
+    obtain ⟨ev, hev, rfl⟩ := List.mem_map.mp hit
+    obtain ⟨ti, hti, hc⟩ := completions_of_mem tm tis _ ev (hperm.mem_iff.mp hev)
+    rcases hc with hc | hc
+    · rw [hc.1]; exact h ti hti
+    · rw [hc.1]; exact clean_overrun _
+  obtain ⟨h1, h2, h3, h4, _, _⟩ := session_survives cfg _ hclean
+  refine ⟨h1, h2, h3, ?_, ?_⟩
+  · unfold runTimed
+    rw [h4, List.length_map, count_singles, count_singles_t]
+    have : (((schedule tm tis).map (·.2)).map shape).Perm (tis.map fun ti => shape ti.item) := by
+      have := (hperm.map (fun ev => shape ev.2))
+      rw [completions_shape] at this
+      simpa [List.map_map, schedule, Function.comp_def] using this
+    exact (this.filter _).length_eq
+  · intro ti hti hreq hb
+    obtain ⟨ev, hev, hc⟩ := mem_completions tm tis (List.replicate tm.slots 0) ti hti
+    have hev' : ev ∈ schedule tm tis := hperm.mem_iff.mpr hev
+    have hmem : ∀ it : Item, it ∈ (schedule tm tis).map (·.2) → it.kind = .request →
+        it.batch = false →
+        (it.id, textReply cfg it.outcome) ∈ (runTimed .repaired cfg tm tis).replies := by
+      intro it hit hk hbt
+      unfold runTimed
+      rw [h4]
+      exact List.mem_map.mpr ⟨it, List.mem_filter.mpr ⟨hit, by simp [hk, hbt]⟩, rfl⟩
+    rcases hc with hc | hc
+    · left
+      refine ⟨⟨ev.1, hc.2, ?_⟩, ?_⟩
+      · rw [← hc.1]; exact hev'
+      · have := hmem ev.2 (List.mem_map.mpr ⟨ev, hev', rfl⟩) (by rw [hc.1]; exact hreq)
+          (by rw [hc.1]; exact hb)
+        rwa [hc.1] at this
+    · right
+      refine ⟨?_, ?_⟩
+      · rw [← hc.1, ← hc.2]; exact hev'
+      · have := hmem ev.2 (List.mem_map.mpr ⟨ev, hev', rfl⟩) (by rw [hc.1]; exact hreq)
+          (by rw [hc.1]; exact hb)
+        rwa [hc.1] at this
+
+/-- first occurrence of an element -/
+theorem split_first {α : Type} [DecidableEq α] (l : List α) (x : α) (h : x ∈ l) :
+    ∃ pre post, l = pre ++ x :: post ∧ x ∉ pre := by
+  induction l with
+  | nil => simp at h
+  | cons y ys ih =>
+    by_cases hxy : x = y
+    · exact ⟨[], ys, by simp [hxy], by simp⟩
+    · have : x ∈ ys := by
+        rcases List.mem_cons.mp h with h | h
+        · exact absurd h hxy
+        · exact h
+      obtain ⟨pre, post, he, hn⟩ := ih this
+      exact ⟨y :: pre, post, by simp [he], by simp [hxy, hn]⟩
+
+/-- **Timed, with disconnects.**  In the schedule, a request whose completion (its own outcome
+before the deadline, or the overrun at it) comes strictly before every reply-and-disconnect and
+every behaviour outside the quantifier is answered with the table's reply - whatever happens
+later. -/
+theorem timed_answered_unless_cut (cfg : Cfg) (tm : Timing) (tis : List TItem) (ev : Nat × Item)
+    (hev : ev ∈ schedule tm tis)
+    (hcut : ∀ e ∈ schedule tm tis, ¬ clean cfg e.2 → ev.1 < e.1 ∨ e = ev)
+    (hs : inScope ev.2.outcome = true) (hx : ev.2.outcome ≠ .raisesExcessive)
+    (hreq : ev.2.kind = .request) (hb : ev.2.batch = false) :
+    (ev.2.id, textReply cfg ev.2.outcome) ∈ (runTimed .repaired cfg tm tis).replies := by
+  obtain ⟨pre, post, he, hn⟩ := split_first _ ev hev
+  have hsorted := (schedule_complete tm tis).2.1
+  rw [he] at hsorted
+  have hle := (List.pairwise_append.mp hsorted).2.2
+  have hpre : ∀ x ∈ pre.map (·.2), clean cfg x := by
+    intro x hx'
+    obtain ⟨e, hepre, rfl⟩ := List.mem_map.mp hx'
+    have hmem : e ∈ schedule tm tis := by rw [he]; simp [hepre]
+    have hle' : e.1 ≤ ev.1 := hle e hepre ev (by simp)
+    by_cases hc : clean cfg e.2
+    · exact hc
+    · rcases hcut e hmem hc with h | h
+      · omega
+      · exact absurd (h ▸ hepre) hn
+  unfold runTimed
+  rw [he, List.map_append, List.map_cons]
+  exact answered_unless_cut cfg _ ev.2 _ hpre hs hx hreq hb
+
+/-- non-vacuity: two slots; request 1 replies and disconnects at 9 s; request 0 (7 s) completed
+before and is answered, request 2 (would complete at 11 s) is cut off -/
+example :
+    let tis : List TItem := [⟨⟨0, .request, false, .returns (.value 1)⟩, 7, 0⟩,
+      ⟨⟨1, .request, false, .replyAndDisconnect (.value 2)⟩, 9, 0⟩, ⟨⟨2, .request, false, .returns (.value 3)⟩, 4, 0⟩]
+    (schedule { slots := 2 } tis).map (fun ev => (ev.1, ev.2.id)) = [(7, 0), (9, 1), (11, 2)] ∧
+    (runTimed .repaired {} { slots := 2 } tis).replies = [(0, .result 1), (1, .result 2)] ∧
+    (runTimed .repaired {} { slots := 2 } tis).lost = [2] := by decide
+
+/-- the error count of a timed run without disconnects: the requests and notifications that
+failed or overran -/
+theorem timed_errors (cfg : Cfg) (tm : Timing) (tis : List TItem)
+    (h : ∀ ti ∈ tis, clean cfg ti.item) :
+    (runTimed .repaired cfg tm tis).errors =
+      (((schedule tm tis).map (·.2)).filter fun it => failedItem it.kind it.outcome).length := by
+  have hperm := sortEv_perm (completions tm (List.replicate tm.slots 0) tis)
+  have hclean : ∀ it ∈ (schedule tm tis).map (·.2), clean cfg it := by
+    intro it hit
+    obtain ⟨ev, hev, rfl⟩ := List.mem_map.mp hit
+    obtain ⟨ti, hti, hc⟩ := completions_of_mem tm tis _ ev (hperm.mem_iff.mp hev)
+    rcases hc with hc | hc
+    · rw [hc.1]; exact h ti hti
+    · rw [hc.1]; exact clean_overrun _
+  exact (session_survives cfg _ hclean).2.2.2.2.2
+
+/-- non-vacuity: one slot, three requests - the first finishes (7 s), the second would need
+until 33 s and overruns in its handler, the third is still queued when its timeout expires -/
+example :
+    let tis : List TItem := [⟨⟨0, .request, false, .returns (.value 1)⟩, 7, 0⟩,
+      ⟨⟨1, .request, false, .raisesRpcError 5 1 0⟩, 26, 0⟩, ⟨⟨2, .request, false, .returns (.value 3)⟩, 1, 0⟩]
+    (∀ ti ∈ tis, clean {} ti.item) ∧
+    (schedule { slots := 1 } tis).map (fun ev => (ev.1, ev.2.id)) = [(7, 0), (30, 1), (30, 2)] ∧
+    (runTimed .repaired {} { slots := 1 } tis).replies =
+      [(0, .result 1), (1, .error (-102) msgBusy), (2, .error (-102) msgBusy)] := by decide
 
 /-! ## F9 (pinned tree; repaired by a `fix:` commit) -/
 
@@ -168,16 +593,16 @@ theorem replies_order_independent (cfg : Cfg) (a b : List Item) (h : a.Perm b) :
 ProtocolError escape `_throttled_request`: that request gets no reply, message processing dies,
 and an unrelated request completing later (id 3) is never answered -/
 theorem session_survives_fails_pinned :
-    let s := serve .pinned {} [⟨1, .request, .returns (.value 7)⟩,
-                               ⟨2, .request, .returns (.unencodable 0)⟩,
-                               ⟨3, .request, .returns (.value 9)⟩]
+    let s := serve .pinned {} [⟨1, .request, false, .returns (.value 7)⟩,
+                               ⟨2, .request, false, .returns (.unencodable 0)⟩,
+                               ⟨3, .request, false, .returns (.value 9)⟩]
     s.alive = false ∧ s.replies = [(1, .result 7)] ∧ s.lost = [2, 3] := by decide
 
 /-- the same vector on the repaired model -/
 example :
-    let s := serve .repaired {} [⟨1, .request, .returns (.value 7)⟩,
-                                 ⟨2, .request, .returns (.unencodable 0)⟩,
-                                 ⟨3, .request, .returns (.value 9)⟩]
+    let s := serve .repaired {} [⟨1, .request, false, .returns (.value 7)⟩,
+                                 ⟨2, .request, false, .returns (.unencodable 0)⟩,
+                                 ⟨3, .request, false, .returns (.value 9)⟩]
     s.alive = true ∧ s.replies = [(1, .result 7), (2, .error (-32603) msgEncoding), (3, .result 9)]
       ∧ s.errors = 1 := by decide
 
